@@ -217,7 +217,16 @@ def one_path(prog: Program, rep: Report) -> None:
     rep.check(rule, fi.qual, "file type from the suffix; everything but .toml is YAML", len(disp) == 1, what_bad="suffix dispatch changed", what_ok="toml / default yaml", loc=fi.loc())
     ver = [n for n in walk_no_nested(fi.node) if isinstance(n, ast.Assign) and unparse(n.targets[0]) == "version"]
     srcs = [unparse(n.value) for n in ver]
-    inferred = [n for n in walk_no_nested(fi.node) if isinstance(n, ast.If) and unparse(n.test) == "'time_control' in config" and [unparse(x) for x in n.body] == ["version = '1'"] and [unparse(x) for x in n.orelse] == ["version = '2'"]]
+    from ..program import positive_cond
+
+    inferred = []
+    for n in walk_no_nested(fi.node):
+        if not isinstance(n, ast.If):
+            continue
+        text, pos = positive_cond(unparse(n.test), True)
+        with_tc, without_tc = (n.body, n.orelse) if pos else (n.orelse, n.body)
+        if text == "'time_control' in config" and [unparse(x) for x in with_tc] == ["version = '1'"] and [unparse(x) for x in without_tc] == ["version = '2'"]:
+            inferred.append(n)
     rep.check(rule, fi.qual, "version: explicit key, else inferred from the presence of time_control", "str(config.get('version', '0'))" in srcs and len(inferred) == 1, what_bad=f"{srcs}", what_ok="explicit or inferred", loc=fi.loc())
     v2call = [n for n in walk_no_nested(fi.node) if isinstance(n, ast.Expr) and isinstance(n.value, ast.Call) and unparse(n.value.func) == "configure_v2" and [unparse(a) for a in n.value.args] == ["config"]]
     v1call = [n for n in walk_no_nested(fi.node) if isinstance(n, ast.Assign) and unparse(n.targets[0]) == "config" and unparse(n.value) == "configure_v1(config)"]
